@@ -290,6 +290,7 @@ pub fn c13_pool(tier: &str) -> Vec<Term> {
   pool.push(Term::RawBuf(b"a\n".to_vec()));
   pool.push(Term::RawStr("b".into()));
   pool.extend(trees::named_variants().into_iter().step_by(2));
+  pool.extend(trees::named_variants().into_iter().filter(|t| matches!(t, Term::Sms(s) if s.name == "nvlong")));
   if tier == "thorough" {
     let extra = trees::sms_leaves(&["ab\n", "a\nb"], 2, &[None, Some(K_A), Some(K_B)]);
     pool.extend(extra.into_iter().step_by(3).take(24));
